@@ -154,6 +154,10 @@ pub struct Plan {
     pub fail_from: Option<(usize, ErrorKind)>,
     /// Fail the n-th (0-based) operation with this verb.
     pub fail_nth_verb: Option<(Verb, usize, ErrorKind)>,
+    /// Fail every operation with this verb on this path, after sleeping that many milliseconds
+    /// (schedule-independent, for replays on multi-thread runtimes where indices vary; the delay
+    /// makes the failing operation the last of its siblings to complete).
+    pub fail_path: Option<(Verb, String, ErrorKind, u64)>,
 }
 
 impl Plan {
@@ -188,6 +192,9 @@ impl Plan {
         }
         if let Some((verb, n, kind)) = self.fail_nth_verb {
             s.push(format!("fail {} number {n} with {}", verb_name(verb), kind_name(kind)));
+        }
+        if let Some((verb, path, kind, delay)) = &self.fail_path {
+            s.push(format!("fail {} of {path} with {} after {delay} ms", verb_name(*verb), kind_name(*kind)));
         }
         if s.is_empty() {
             "no fault".into()
@@ -321,6 +328,15 @@ impl Interceptor for Icpt {
                     rec.injected = Some(format!("fail {}", kind_name(kind)));
                     action = Action::Fail(kind);
                 }
+            }
+        }
+        if let Some((verb, path, kind, delay_ms)) = &self.plan.fail_path {
+            if *verb == op.verb && *path == op.path && action == Action::Proceed {
+                if *delay_ms > 0 {
+                    std::thread::sleep(std::time::Duration::from_millis(*delay_ms));
+                }
+                rec.injected = Some(format!("fail {}", kind_name(*kind)));
+                action = Action::Fail(*kind);
             }
         }
         if action == Action::Proceed {
